@@ -5786,8 +5786,11 @@ def _fill_rests_within_measure(measure: Measure, part: Part) -> None:
     )
 
     # voc_staff is now transformed to only voice
-    voc_staff = np.array([[n.voice, n.staff] for n in notes])
+    # (a measure in which no note or rest starts gives an empty 0 x 2 table: every staff is empty)
+    voc_staff = np.array([[n.voice, n.staff] for n in notes]).reshape(-1, 2)
     un_voice, inverse_map = np.unique(voc_staff[:, 0], axis=0, return_inverse=True)
+    # the voice for rests on an empty staff: one that is not used in this measure
+    free_voice = un_voice.max() + 1 if len(un_voice) > 0 else 1
     # Check if a staff is empty and fill it with rests
     unique_staff = np.unique(voc_staff[:, 1])
     if len(unique_staff) < part.number_of_staves:
@@ -5806,13 +5809,13 @@ def _fill_rests_within_measure(measure: Measure, part: Part) -> None:
                             sd, divs_at(start_time)
                         )
                         rest = Rest(
-                            symbolic_duration=sd, staff=staff, voice=un_voice.max() + 1
+                            symbolic_duration=sd, staff=staff, voice=free_voice
                         )
                         part.add(rest, st, et)
                         st = et
                 else:
                     rest = Rest(
-                        symbolic_duration=sym_dur, staff=staff, voice=un_voice.max() + 1
+                        symbolic_duration=sym_dur, staff=staff, voice=free_voice
                     )
                     part.add(rest, start_time, end_time)
     # Now we fill the rests for each voice
